@@ -1454,7 +1454,7 @@ def model_line_level(line):
         return line[len('level'):]
     p = line.split('|')
     kind, name, h, edits, retries, delay, txs, rxs = p[1:9]
-    if (len(p) > 9 and p[9]) or name == 'ITEMS' or len(p) > 10:
+    if (len(p) > 9 and p[9]) or name == 'ITEMS' or len(p) > 10 or edits:
         return 'no-model'             # one frame object used for several requests: judged by the oracle alone
     out, st = run_level(line, False)
     if st is None:
@@ -1496,7 +1496,7 @@ def canonical_valset(spec):
     pl = bytearray([0, 1, 0, 0])
     for g, i, bits, sg, v in parse_items(spec):
         code = {1: 1, 8: 2, 16: 3, 32: 4, 64: 5}.get(bits)
-        if code is None or not (0 <= g <= 255 and 0 <= i <= 4095):
+        if code is None or not (0 <= g <= 255 and 0 <= i <= 4095) or not isinstance(v, int):
             return None
         pl += ((code << 28) | (g << 16) | i).to_bytes(4, 'little')
         if bits == 1:
@@ -1545,6 +1545,14 @@ def gen_level(rng, n, profile):
             while not wellformed(name, pl):
                 pl = payload_for(rng, name)
             h = pl.hex()
+        if mode >= 1 and rng.random() < 0.25:
+            # a field assigned before the request: in range, out of range, or something that is no number at all (None, a float, a text) -
+            # what the request then does (an exception from encoding, most of the time) must be the same at every log level
+            from comp_codec import field_kinds
+            kinds = [k for k in field_kinds(name, bytes.fromhex(h)) if k[1] != 'text']
+            if kinds:
+                fname, kk, w = rng.choice(kinds)
+                edits = f'{fname}=' + rng.choice(['N', 'N', 'f:1.5', 'f:0.0', 's:' + b'7'.hex(), str(1 << (8 * w)), '-1', str((1 << (8 * w)) - 1), '0'])
         retries = rng.randrange(0, 3)
         delay = rng.choice([1, 125, 500])
         c, i = cls.CID.cls, cls.CID.id
@@ -1588,6 +1596,8 @@ def gen_level_items(rng, count):
             w = max(bits, 8)
             v = rng.choice([0, 1, 2 ** (w - 1) - 1, 2 ** (w - 1), 2 ** w - 1, -1, -2 ** (w - 1), rng.randrange(2 ** w)]) if bits > 1 else \
                 rng.choice([0, 1, 0, 1, 2, 4, 0x80, 255, 256, -1])
+            if rng.random() < 0.06:
+                v = rng.choice(['N', 'f:2.5'])         # a value left unset (from_key(key) with no value), a float
             items.append(f'{g},{i},{bits},{int(sg)},{v}')
         retries = rng.randrange(0, 2)
         rx = [(rng.choice([1, 5, 50]), frame(5, 1, [6, 0x8a])) for _ in range(rng.randrange(0, 4))]
@@ -1978,7 +1988,7 @@ def untok(ts):
     return bytes.fromhex(t[1:]).decode()
 
 
-def chunk_bytes(c):
+def chunk_bytes(c, salt=''):
     """the bytes of a chunk written in the line's notation (the real json/str machinery then parses them)"""
     if c == 'U':
         return b'\xff\xfe\xb5b'
@@ -1987,7 +1997,7 @@ def chunk_bytes(c):
         if l == 'X':
             # something that is no JSON: an NMEA sentence - or an empty line, or one of blanks only (which one depends on the chunk, and
             # repeats on a replay)
-            lines.append(['$GPRMC,1*2C', '$GPRMC,1*2C', '$GPRMC,1*2C', '', '   ', '\t', '\r'][(zlib.crc32(c.encode()) + n) % 7])
+            lines.append(['$GPRMC,1*2C', '$GPRMC,1*2C', '$GPRMC,1*2C', '$GPRMC,1*2C', '', '   ', '\t', '\r'][(zlib.crc32((salt + '/' + c).encode()) + n) % 8])
         elif l == 'D':
             lines.append('[' * 100000)
         elif l == 'B':                       # a number json.loads refuses to convert (more than 4300 digits)
@@ -2009,7 +2019,7 @@ def real_gpsd(line):
         return 'EXC:' + exc_name(e)
     for c in chunks.split('/'):
         try:
-            g._parse_gpsd_msg(chunk_bytes(c))
+            g._parse_gpsd_msg(chunk_bytes(c, line))
             rel = g.release if isinstance(g.release, str) else None
             out.append(f'{g.selected_device},{"true" if g.enabled else "false"},{rel}')
         except RecursionError:
@@ -2136,6 +2146,17 @@ def gen_gpsd(rng, n, profile):
                     # objects of OTHER classes that look like reports: other spelling, other case, names of internals
                     v = {'class': rng.choice(['devices', 'Devices', 'version', 'Version', 'DEVICE', 'gpsd_msg', 'GPSD_MSG', 'WATCH', 'TPV', 'ERROR', '']),
                          **rng.choice([{}, {'devices': [{'path': rng.choice(devs)}]}, {'devices': 7}, {'release': '9.9'}, {'path': rng.choice(devs)}])}
+                    if rng.random() < 0.5:
+                        # the reports gpsd really sends next to VERSION and DEVICES, their usual members holding values of ANY shape - null,
+                        # text, a list, an object, a number, true: whoever looks at them must not trip over the shape
+                        odd = lambda: rng.choice([None, None, 'x', '', [], [1], {}, {'a': None}, 0, 2, -1, True, False, 1.5])
+                        cls_ = rng.choice(['WATCH', 'WATCH', 'TPV', 'SKY', 'DEVICE', 'ERROR', 'POLL', 'PPS', 'TOFF', 'GST', 'ATT'])
+                        members = {'WATCH': ['enable', 'raw', 'json', 'nmea', 'scaled', 'timing', 'split24', 'pps', 'device', 'remote'],
+                                   'TPV': ['device', 'mode', 'time', 'lat', 'lon', 'alt', 'status'], 'SKY': ['device', 'satellites', 'hdop', 'nSat'],
+                                   'DEVICE': ['path', 'driver', 'activated', 'flags', 'native', 'bps'], 'ERROR': ['message'],
+                                   'POLL': ['time', 'active', 'tpv', 'sky'], 'PPS': ['device', 'real_sec', 'clock_sec', 'precision'],
+                                   'TOFF': ['device', 'real_sec', 'clock_sec'], 'GST': ['device', 'time', 'rms'], 'ATT': ['device', 'heading', 'pitch']}[cls_]
+                        v = {'class': cls_, **{m: (odd() if rng.random() < 0.6 else rng.choice([True, 2, 'on', 1])) for m in rng.sample(members, rng.randrange(0, len(members) + 1))}}
                 else:
                     v = rand_json(rng)
                     if not wellformed_json(v):
@@ -2175,7 +2196,7 @@ def real_gpsdsetup(line):
     want = None if req == '-' else bytes.fromhex(req).decode()
     try:
         g = gpsd_server(want)
-        FakeSocketModule.script = {'recv': [chunk_bytes(c) for c in chunks.split('/')], 'strict': True}
+        FakeSocketModule.script = {'recv': [chunk_bytes(c, line + str(k)) for k, c in enumerate(chunks.split('/'))], 'strict': True}
         try:
             g.setup()
         except ScriptEnd:
